@@ -36,6 +36,11 @@ META = {
             "6 shows the model flags it). Trusted: Coq kernel; extraction + OCaml driver; harness/c05_impl.cpp; ASan/UBSan/TSan.",
 }
 
+# ---- additions of the translator / tie session
+META["text"] += (" The model's wait-out step is tied to the source: coq/Gen/TeardownShape.v (teardownWaitOut: lock, fence, notifications, the "
+                 "wait and the counters its predicate names, from clang's AST, regenerated every run) and C05/GenTie.v "
+                 "teardown_generated_waits_for_all_three.")
+
 
 def gen_script(rng):
     ops = []
